@@ -17,5 +17,6 @@ let table : (string * (Model.z list list -> Model.z list list)) list = [
   "file", Model.file_run;
   "pool", Model.pool_run;
   "thread", Model.thread_run;
+  "concrouter", Model.conc_run;
   "localespec", Model.locale_spec_run;
 ]
